@@ -332,8 +332,28 @@ func c19Parse(c *Ctx, md protoreflect.MessageDescriptor, path string) (p protopa
 		c.Find("c19/ParsePath/no-panic", "ParsePath panicked: "+msg, fmt.Sprintf("root=%s path=%s", md.FullName(), hx([]byte(path))))
 		return nil, false, true
 	}
+	// a path handed out earlier stays what it was: the result of ParsePath is the caller's value, a later parse
+	// (of another path, possibly of another root) must not reach into it
+	if h := c19Held; h != nil {
+		if now := c19Path(h.p); now != h.text {
+			c.Find("c19/ParsePath/earlier-result-changed", fmt.Sprintf("the path parsed from %q rendered as %s when ParsePath returned it and as %s after the next ParsePath call (on %q)", h.src, h.text, now, path),
+				fmt.Sprintf("root=%s first=%s then=%s", md.FullName(), hx([]byte(h.src)), hx([]byte(path))))
+		}
+		c.Count("parse/held-path-rechecked")
+	}
+	if err == nil {
+		c19Held = &c19HeldPath{src: path, text: c19Path(p), p: p}
+	}
 	return p, err == nil, false
 }
+
+type c19HeldPath struct {
+	src, text string
+	p         protopath.Path
+}
+
+// c19Held is the most recent path ParsePath accepted, re-rendered after the next call.
+var c19Held *c19HeldPath
 
 func (rt *c19Root) parseCase(c *Ctx, path string) {
 	_, toks, progress := c19Scan(c, path)
